@@ -398,4 +398,36 @@ CombM_Keys(lists) == ProdM(<<<<>>>>, [l \in 1..Len(lists) |-> [y \in 1..Len(list
 CombM_Values(lists) == ProdM(<<<<>>>>, lists)                                                         \* product(*items)
 CombM_Items(lists) == LET ks == CombM_Keys(lists) IN
   [j \in 1..Len(ks) |-> <<ks[j], [l \in 1..Len(lists) |-> lists[l][ks[j][l] + 1]]>>]
+
+(***************************************************************************)
+(* DataCombination over time.  The object is given the caller's list of    *)
+(* lists; the documentation does not say that it copies them, and the      *)
+(* caller may change them afterwards (append / pop / extend an item list,  *)
+(* add a list).  IDEAL: at every moment keys(), values() and items() are   *)
+(* the product of ONE state of the lists - the lists as they are now       *)
+(* (reference semantics, what the code does) or the lists as they were at  *)
+(* construction (copy semantics) - and the three agree with each other.    *)
+(* MACHINE: self._items is the caller's list object; every accessor reads  *)
+(* it when called.                                                         *)
+(***************************************************************************)
+CombOut(lists) == [keys |-> CombM_Keys(lists), values |-> CombM_Values(lists), items |-> CombM_Items(lists)]
+CMI_New(lists) == [lists |-> lists, snap |-> lists]
+CM_Mutate(lists, op) ==
+  CASE op.op = "append" -> [lists EXCEPT ![op.l] = Append(@, op.v)]
+    [] op.op = "pop" -> [lists EXCEPT ![op.l] = SubSeq(@, 1, Len(@) - 1)]
+    [] op.op = "extend" -> [lists EXCEPT ![op.l] = @ \o op.vs]
+    [] op.op = "addlist" -> Append(lists, op.vs)
+CMI_Step(t, op) == [t EXCEPT !.lists = CM_Mutate(@, op)]
+CMI_Obs(t) == [alt |-> <<CombOut(t.lists), CombOut(t.snap)>>]            \* the admissible observations
+CMI_Compact(t) == [l |-> t.lists, s |-> t.snap]
+\* what one observation [keys, values, items] breaks, with respect to the list state `lists`
+CombI_VerdictAll(lists, out) ==
+  LET v == CombI_Verdict(lists, out.items) IN
+  IF v # "ok" THEN v
+  ELSE IF out.keys # [j \in 1..Len(out.items) |-> out.items[j][1]] \/ out.values # [j \in 1..Len(out.items) |-> out.items[j][2]]
+       THEN "aligned" ELSE "ok"
+CMM_New(lists) == [items |-> lists]
+CMM_Step(m, op) == [m EXCEPT !.items = CM_Mutate(@, op)]                  \* the caller changed the object that self._items refers to
+CMM_Obs(m) == [alt |-> <<CombOut(m.items)>>]
+CMM_Compact(m) == [l |-> m.items]
 =============================================================================
